@@ -35,7 +35,7 @@ package main
 //@   shape s = atoms(0) | atoms(1) | atoms(2)
 //@   assigns nothing
 //@   ensures [C18] malformed-flag-fails: len(s) == 1 ==> (result1 != nil <==> index_rune(s[0], "=") == 0 - 1)
-//@   ensures [C18,C16,C20] splits-at-first-equals: len(s) == 1 && result1 == nil ==> result0[substr(s[0], 0, index_rune(s[0], "="))] == substr(s[0], index_rune(s[0], "=") + 1, len(s[0]))
+//@   ensures [C18,C16,C20] splits-at-first-equals: len(s) == 1 && result1 == nil ==> map_has(result0, substr(s[0], 0, index_rune(s[0], "="))) && result0[substr(s[0], 0, index_rune(s[0], "="))] == substr(s[0], index_rune(s[0], "=") + 1, len(s[0]))
 //@   ensures [C18] empty: len(s) == 0 ==> result1 == nil
 
 // ---- map iterations (C12) ----------------------------------------------------
